@@ -63,6 +63,7 @@ fn held_into(base: usize, size: usize) -> usize {
                 + w.wakers.iter().filter(|h| inside(&h.waker)).count()
                 + w.owed.iter().filter(|h| inside(&h.waker)).count()
                 + w.trash.iter().filter(|w| inside(w)).count()
+                + w.borrowed.iter().filter(|h| inside(&h.waker)).count()
         }
         Err(_) => 0,
     })
